@@ -1265,15 +1265,29 @@ impl<'s> Semantics<'s> {
             block.index()
         };
 
+        // When the condition is false the destination is still written with
+        // its own value, which clears the upper half of the full register for
+        // a 32-bit destination in 64-bit mode.
+        let false_index = {
+            let block = control_flow_graph.new_block()?;
+
+            let dst = self.operand_load(block, &detail.operands[0])?;
+
+            self.operand_store(block, &detail.operands[0], dst)?;
+
+            block.index()
+        };
+
         let condition = self.cc_condition()?;
 
         control_flow_graph.conditional_edge(head_index, block_index, condition.clone())?;
         control_flow_graph.conditional_edge(
             head_index,
-            tail_index,
+            false_index,
             Expr::cmpeq(condition, expr_const(0, 1))?,
         )?;
         control_flow_graph.unconditional_edge(block_index, tail_index)?;
+        control_flow_graph.unconditional_edge(false_index, tail_index)?;
 
         control_flow_graph.set_entry(head_index)?;
         control_flow_graph.set_exit(tail_index)?;
